@@ -248,6 +248,12 @@ func runIDBind(tablesPath string, seed int64, out string) {
 						_, _ = t2.Delegator()
 					}
 				}
+				// the id binds the origin: the same content signed by somebody else is a different tx
+				otherTx := g.sign(f.build(), g.keys[1], g.keys[2])
+				r.Evaluations++
+				if otherTx.ID() == base.ID() || otherTx.Hash() == base.Hash() {
+					dev("id-unbound:tx.origin", "tx id/hash unchanged with a different origin ("+cfg.label+")")
+				}
 				// unused reserved slot: not reachable through the builder, spliced into the encoding
 				if u := g.withUnused(base); u != nil {
 					r.Evaluations++
